@@ -44,6 +44,12 @@ func mutatedDoc(idx int, r *lib.Rand, fixtures map[string][]byte) (text []byte, 
 		return nil, nil, base
 	}
 	edits = gen.Mutate(r, tree, r.Range(1, 3))
+	if r.P(0.2) {
+		// one edit of the reference graph / schema identity on top (draws after the structural edits)
+		if e := gen.GraphEdit(r, tree); e != "" {
+			edits = append(edits, e)
+		}
+	}
 	if idx%11 == 0 {
 		if y, err := gen.YAML(tree); err == nil {
 			return y, append(edits, "as-yaml"), base
@@ -61,7 +67,7 @@ type c07 struct {
 func init() {
 	lib.Register(&c07{base: base{
 		id: "C07", level: "exploration",
-		technique: "runtime crash monitor: structurally mutated specifications (delete / retype / rename / transplant / null / dangling and sibling-carrying $ref / odd parameter, property and definition names / parameter location swaps / defaults and examples of random kinds) that the loader accepts are run through SpecValidator.Validate in both continue-on-errors modes in child processes under recover; any panic or process death is a violation",
+		technique: "runtime crash monitor: structurally mutated specifications (delete / retype / rename / transplant / null / dangling and sibling-carrying $ref / odd parameter, property and definition names / parameter location swaps / defaults and examples of random kinds) that the loader accepts are run through SpecValidator.Validate in both continue-on-errors modes in child processes under recover; any panic or process death is a violation, and so is a validation which does not return (per-case watchdog, confirmed by re-running the case alone)",
 		rule: "base documents: 2/3 generated valid specifications (sometimes with a rule fault), 1/3 repository fixtures; 1-3 seeded structural edits each; 1 in 11 rendered as YAML; documents the loader rejects are counted and dropped; distinct = FNV-64 of the document text; non-trivial = the document loads and at least one edit was applied",
 		assumptions: []string{"sampled input space: held on the mutated documents evaluated", "the loader (loads.Analyzed) decides what 'loads' means"},
 		quick: 1200, thorough: 16000,
@@ -74,6 +80,10 @@ func (p *c07) Init(w *lib.Worker) (err error) {
 }
 
 func (p *c07) Chunk(string) int { return 20 }
+
+// CaseTimeout: a case is two specification validations (well under 2 s even on a loaded machine); a case still
+// running after 60 s is re-run alone, and reported when it does not return there either (bounded progress).
+func (p *c07) CaseTimeout(string) int { return 60 }
 
 func (p *c07) Run(w *lib.Worker, idx int, r *lib.Rand) lib.Case {
 	text, edits, base := mutatedDoc(idx, r, p.fixtures)
@@ -89,6 +99,15 @@ func (p *c07) Run(w *lib.Worker, idx int, r *lib.Rand) lib.Case {
 		if !o.Loaded {
 			c.Tags = append(c.Tags, "does-not-load")
 			c.Evals = 0
+			return c
+		}
+		if knownC07IdPanic(o, text) {
+			// recorded finding: a schema with an "id" opens a new resolution scope; the default / example validators
+			// compile it against that scope, its local references no longer resolve and the documented panic escapes
+			c.Known = []string{"schema-id-rescopes-refs-panic-in-default-example-validation"}
+			c.KnownWhat = fmt.Sprintf("continue-on-errors=%v, edits=%v: %s", cont, edits, lib1(o.Panic))
+			c.Sample = map[string]any{"document": string(text), "edits": edits, "panic": o.Panic, "stack": trimStack(o.Stack)}
+			c.Nontrivial = true
 			return c
 		}
 		if knownC07Panic(o, cont, text) {
@@ -137,6 +156,71 @@ func knownC07Panic(o sut.SpecOutcome, cont bool, text []byte) bool {
 		return false
 	}
 	return docHasUnresolvableRef(text)
+}
+
+// knownC07IdPanic recognises the recorded finding schema-id-rescopes-refs-panic-in-default-example-validation by call
+// site and input class: the documented invalid-schema panic, raised by newSchemaValidator below the default / example
+// validators (either mode), on a document which holds a schema object carrying a non-empty string "id" together with a
+// default or an example, and a $ref somewhere inside that schema.
+func knownC07IdPanic(o sut.SpecOutcome, text []byte) bool {
+	if o.Panic == "" || !sut.IsDocumentedSchemaPanic(o.Panic) {
+		return false
+	}
+	if !strings.Contains(o.Stack, "(*defaultValidator)") && !strings.Contains(o.Stack, "(*exampleValidator)") {
+		return false
+	}
+	doc, err := sut.LoadSpec(text)
+	if err != nil {
+		return false
+	}
+	raw, err := model.Parse(doc.Raw())
+	if err != nil {
+		return false
+	}
+	var hasRef func(v any) bool
+	hasRef = func(v any) bool {
+		switch x := v.(type) {
+		case map[string]any:
+			if _, ok := x["$ref"].(string); ok {
+				return true
+			}
+			for _, e := range x {
+				if hasRef(e) {
+					return true
+				}
+			}
+		case []any:
+			for _, e := range x {
+				if hasRef(e) {
+					return true
+				}
+			}
+		}
+		return false
+	}
+	found := false
+	var walk func(v any, key string)
+	walk = func(v any, key string) {
+		switch x := v.(type) {
+		case map[string]any:
+			if id, ok := x["id"].(string); ok && id != "" && key != "info" {
+				_, d := x["default"]
+				_, e := x["example"]
+				if (d || e) && hasRef(x) {
+					found = true
+				}
+			}
+			for k, e := range x {
+				walk(e, k)
+			}
+		case []any:
+			for _, e := range x {
+				walk(e, key)
+			}
+		}
+	}
+	walk(raw, "")
+	return found
 }
 
 // docHasUnresolvableRef tells whether the document (JSON or YAML text) holds a $ref which cannot be expanded
